@@ -443,7 +443,13 @@ func (e *issEnv) hook(op *doubles.Op) error {
 	}
 	a := &issArrival{tid: tid, op: *op, reply: make(chan int, 1)}
 	e.arrivals <- a
-	switch <-a.reply {
+	f := <-a.reply
+	if op.Kind == "Unlock" && op.CtxErr != "" && f == fNone {
+		// a storage that honours contexts would refuse this call: the release must not be made
+		// with the caller's cancelled context (storage.go releaseLock uses WithoutCancel)
+		return errors.New("Unlock called with a cancelled context: " + op.CtxErr)
+	}
+	switch f {
 	case fErr:
 		return errInjected
 	case fCancel:
@@ -725,7 +731,8 @@ func (e *issEnv) stepThread(rt *issRT) error {
 	if kind == "Lock" && lockHeld && f == fNone && !cancBefore {
 		rt.state, rt.waitLock, expected = stBlocked, a.op.Key, 0
 	}
-	if kind == "Unlock" && (f == fNone || f == fCancel) && len(waiters) > 0 {
+	refused := kind == "Unlock" && a.op.CtxErr != "" && f == fNone // see hook: cancelled context at the release
+	if kind == "Unlock" && (f == fNone || f == fCancel) && !refused && len(waiters) > 0 {
 		expected++
 	}
 	if err := e.wait(expected); err != nil {
